@@ -15,7 +15,8 @@ def preIp (s : State) (now : Nat) (pkts : List Packet) (cmds : List Command) : S
   (evictAddrPhase (evictServicesPhase (preEvict s now pkts cmds) now).1 now).1
 
 theorem iter_fst (s : State) (now : Nat) (pkts : List Packet) (cmds : List Command) :
-    (iter s now pkts cmds).1 = runIpCheck (preIp s now pkts cmds) now := rfl
+    (iter s now pkts cmds).1 = runIpCheck (preIp s now pkts cmds) now := by
+  simp only [iter, preIp, preEvict, preCommands]
 
 /-- a timer armed during the iteration at `now` (other than the interface check): within an
     hour (follow-ups, retransmissions with their back-off of at most 3600 s), within the
@@ -339,12 +340,12 @@ theorem quiet_preIp (s : State) (now : Nat) (hq : s.queriers = []) (hr : s.rerun
     unfold rerunPhase
     rw [hl]
     generalize hpc : preCommands s now [] = pc at hr1
-    obtain ⟨a1, a2, a3, a4, a5, a6, a7, a8, a9, a10, a11⟩ := pc
+    obtain ⟨a1, a2, a3, a4, a5, a6, a7, a8, a9, a10, a11, a12⟩ := pc
     simp only at hr1
     subst hr1
     rfl
   have e4 : (refreshActive (preCommands s now []) now).1 = preCommands s now [] := by
-    have hm : (preCommands s now []).queriers.map (·.1) = [] := by rw [hq1]; rfl
+    have hm : activeTypes (preCommands s now []) = [] := by simp [activeTypes, hq1]
     unfold refreshActive
     simp only []
     rw [hm]
